@@ -153,7 +153,7 @@ def showRaw : Raw → String
 
 def showRs (fs : RsyncFs) : String :=
   dash (sortKeyed (fs.map fun e =>
-    (e.1, s!"{e.1}\{{",".intercalate (sortStr (e.2.map fun f => s!"{"/".intercalate f.1}={showRaw f.2}"))}}"))) "|"
+    (e.1.name, s!"{e.1.name}\{{",".intercalate (sortStr (e.2.map fun f => s!"{"/".intercalate f.1}={showRaw f.2}"))}}"))) "|"
 
 /-! ## observations of the implementation (for the oracle) -/
 
@@ -590,7 +590,7 @@ def doWrite (srv : Server) (rfs : RrdpFs) (sfs : RsyncFs) (logS : String) : Writ
       | some (smuts, srest) =>
         let (sfs', allOk) := sfs.applyAll smuts
         let nfiles := (splan.getD 1 (false, [])).2.length
-        let sb := s!"rsync-f{min nfiles 3}{if (sfs.get? "current").isSome then "c" else ""}{if (sfs.get? "old").isSome then "o" else ""}{if (sfs.get? (tmpName srv.rrdp.serial)).isSome then "t" else ""}"
+        let sb := s!"rsync-f{min nfiles 3}{if (sfs.get? .current).isSome then "c" else ""}{if (sfs.get? .old).isSome then "o" else ""}{if (sfs.get? (.tmp srv.rrdp.serial)).isSome then "t" else ""}"
         if !allOk then
           -- the failing mutation must be the last one of the log
           let okPrefix := (sfs.applyAll smuts.dropLast).2
